@@ -201,7 +201,7 @@ fn parts_of(t: &Transaction) -> Vec<Val> {
 }
 
 fn part_enc(o: &Opts, out: &mut Out) {
-    let n = if o.thorough() { 1500 } else { 150 };
+    let n = if o.thorough() { 3000 } else { 150 };
     for (k, (src, t)) in tx_stream(o, 11, n).into_iter().enumerate() {
         if k % 50 == 0 { out.ev(json!({"ev": "Seg", "part": "enc"})); }
         // with cached metadata (factory values carry it) and without
@@ -210,7 +210,7 @@ fn part_enc(o: &Opts, out: &mut Out) {
         if k % 5 == 0 { for p in parts_of(&t) { if !matches!(&p, Val::Input(i) if degenerate_input(i)) { encoded_event(out, "part", &p); } } }
     }
     let mut rng = o.rng(12);
-    let m = if o.thorough() { 4000 } else { 500 };
+    let m = if o.thorough() { 12000 } else { 500 };
     for k in 0..m {
         if k % 100 == 0 { out.ev(json!({"ev": "Seg", "part": "enc"})); }
         let v = match k % 6 {
@@ -309,7 +309,7 @@ fn id_event(out: &mut Out, src: &str, t: &Transaction, c: &str, mutated: Option<
 }
 
 fn part_id(o: &Opts, out: &mut Out) {
-    let n = if o.thorough() { 700 } else { 90 };
+    let n = if o.thorough() { 1500 } else { 90 };
     let mut rng = o.rng(32);
     let chains = ["0", "1", "9889", "18446744073709551615"];
     for (k, (src, t)) in tx_stream(o, 31, n).into_iter().enumerate() {
@@ -357,16 +357,16 @@ fn decoded_event(out: &mut Out, ty: &str, src: &str, tag: &str, r: u64, b: &[u8]
     }
 }
 
-fn part_dec(o: &Opts, out: &mut Out) -> Res<()> {
-    let mut stats = [0u64; 3];
-    let mut k = 0u64;
-    let seg = |out: &mut Out, k: &mut u64| { if *k % 400 == 0 { out.ev(json!({"ev": "Seg", "part": "dec"})); } *k += 1; };
+/// one decode job of the C02 part
+struct Job { ty: String, src: &'static str, tag: String, r: u64, bytes: Vec<u8> }
+
+fn dec_jobs(o: &Opts) -> Res<Vec<Job>> {
+    let mut jobs = vec![];
     // (a) mutants generated by the specification from the field boundaries of valid encodings
     if let Some(path) = o.opt("--mutants") {
         for (r, ln) in read_lines(&path)?.iter().enumerate() {
             if ln.get("bytes").is_none() || ln.get("tag").is_none() { continue; }
-            seg(out, &mut k);
-            decoded_event(out, &jstr(ln, "ty"), "spec", &jstr(ln, "tag"), r as u64, &unhx(&jstr(ln, "bytes")), &mut stats);
+            jobs.push(Job { ty: jstr(ln, "ty"), src: "spec", tag: jstr(ln, "tag"), r: r as u64, bytes: unhx(&jstr(ln, "bytes")) });
         }
     }
     // (b) seeded byte-level mutations of encodings of factory / generated values, and pure random strings
@@ -379,12 +379,11 @@ fn part_dec(o: &Opts, out: &mut Out) -> Res<()> {
     };
     let interesting: [u64; 10] = [0, 1, 2, 7, 8, 255, 1 << 32, 104857600, 104857601, u64::MAX];
     for i in 0..n {
-        seg(out, &mut k);
         let base = &pool[rng.gen_range(0..pool.len())];
         let ty = base.ty();
         let mut b = base.obs().map(|x| x.bytes).unwrap_or_default();
         let tag = match i % 5 {
-            0 => { // flip 1..3 random bytes
+            0 => { // flip 1..3 random bits
                 for _ in 0..rng.gen_range(1..4) { if !b.is_empty() { let p = rng.gen_range(0..b.len()); b[p] ^= 1 << rng.gen_range(0..8); } }
                 "flip"
             }
@@ -404,10 +403,80 @@ fn part_dec(o: &Opts, out: &mut Out) -> Res<()> {
                 "random"
             }
         };
-        decoded_event(out, ty, "seeded", tag, i as u64, &b, &mut stats);
+        jobs.push(Job { ty: ty.to_string(), src: "seeded", tag: tag.to_string(), r: i as u64, bytes: b });
     }
+    Ok(jobs)
+}
+
+/// child: decode jobs[from..], writing the index of the job in flight to the marker file first, so that
+/// a process abort (allocation failure, stack overflow) inside the decoder can be attributed to its input
+fn part_dec_child(o: &Opts, out: &mut Out) -> Res<()> {
+    use std::io::{Seek, SeekFrom, Write};
+    let jobs = dec_jobs(o)?;
+    let from: usize = o.opt("--from").and_then(|s| s.parse().ok()).unwrap_or(0);
+    let mut marker = std::fs::OpenOptions::new().create(true).write(true).truncate(true).open(o.opt("--marker").expect("--marker"))?;
+    let mut stats = [0u64; 3];
+    let skips: Vec<usize> = o.opt("--skip").map(|s| s.split(',').filter_map(|x| x.parse().ok()).collect()).unwrap_or_default();
+    for (k, j) in jobs.iter().enumerate().skip(from) {
+        if skips.contains(&k) { continue; }
+        if k % 400 == 0 || k == from { out.ev(json!({"ev": "Seg", "part": "dec"})); }
+        marker.seek(SeekFrom::Start(0))?;
+        marker.write_all(format!("{k:<12}").as_bytes())?;
+        decoded_event(out, &j.ty, j.src, &j.tag, j.r, &j.bytes, &mut stats);
+    }
+    marker.seek(SeekFrom::Start(0))?;
+    marker.write_all(format!("{:<12}", "done").as_bytes())?;
     out.ev(json!({"ev": "Seg", "part": "dec-stats"}));
-    out.ev(json!({"ev": "Stats", "ok": stats[0], "err": stats[1], "panic": stats[2]}));
+    out.ev(json!({"ev": "Stats", "ok": stats[0], "err": stats[1], "panic": stats[2], "from": from}));
+    Ok(())
+}
+
+/// parent: run the child; when it dies, log a HostAbort event for the job in flight and resume after it
+fn part_dec(o: &Opts, out: &mut Out) -> Res<()> {
+    let outp = o.out.clone().expect("-o required for part dec");
+    let exe = std::env::current_exe()?;
+    let marker = format!("{outp}.marker");
+    let mut from = 0usize;
+    let mut aborts = 0;
+    let mut skips: Vec<usize> = vec![];
+    let mut totals = [0u64; 3];
+    loop {
+        let part = format!("{outp}.child");
+        let mut cmd = std::process::Command::new(&exe);
+        cmd.args(["record", "txfmt", "--part", "dec-child", "--tier", &o.tier, "--seed", &o.seed.to_string(), "--from", &from.to_string(),
+                  "--marker", &marker, "-o", &part]);
+        if let Some(m) = o.opt("--mutants") { cmd.args(["--mutants", &m]); }
+        if !skips.is_empty() { cmd.args(["--skip", &skips.iter().map(|x| x.to_string()).collect::<Vec<_>>().join(",")]); }
+        let st = cmd.stderr(std::process::Stdio::null()).status()?;
+        // copy what the child managed to write (complete lines only; its buffered tail is lost on an abort)
+        let text = std::fs::read_to_string(&part).unwrap_or_default();
+        let mut done = 0usize;
+        for ln in text.lines() {
+            if let Ok(v) = serde_json::from_str::<Value>(ln) {
+                if v["ev"] == "Stats" { for (i, k) in ["ok", "err", "panic"].iter().enumerate() { totals[i] += v[*k].as_u64().unwrap_or(0); } }
+                else { if v["ev"] == "Decoded" { done += 1; if !st.success() { match v["out"].as_str() { Some("ok") => totals[0] += 1, Some("err") => totals[1] += 1, _ => totals[2] += 1 } } } out.ev(v); }
+            }
+        }
+        let _ = std::fs::remove_file(&part);
+        if st.success() { break; }
+        let m = std::fs::read_to_string(&marker).unwrap_or_default();
+        let k: usize = match m.trim().parse() { Ok(k) => k, Err(_) => return Err(format!("decode child died without progress marker ({st})").into()) };
+        let jobs = dec_jobs(o)?;
+        let j = &jobs[k];
+        out.ev(json!({"ev": "Seg", "part": "dec-abort"}));
+        out.ev(json!({"ev": "HostAbort", "where": "decode", "type": j.ty, "src": j.src, "tag": j.tag, "ref": j.r, "status": format!("{st}"), "bytes": hx(&j.bytes)}));
+        aborts += 1;
+        skips.push(k);
+        // resume after the last job whose event reached the file (jobs skipped earlier produce no event)
+        let mut next = from;
+        let mut left = done;
+        while left > 0 || skips.contains(&next) { if !skips.contains(&next) { left -= 1; } next += 1; }
+        from = next;
+        if aborts >= 25 { break; }
+    }
+    let _ = std::fs::remove_file(&marker);
+    out.ev(json!({"ev": "Seg", "part": "dec-stats"}));
+    out.ev(json!({"ev": "Stats", "ok": totals[0], "err": totals[1], "panic": totals[2], "abort": aborts}));
     Ok(())
 }
 
@@ -420,6 +489,7 @@ pub fn record(o: &Opts) -> Res<()> {
             "off" => part_off(o, &mut out),
             "id" => part_id(o, &mut out),
             "dec" => part_dec(o, &mut out)?,
+            "dec-child" => part_dec_child(o, &mut out)?,
             x => return Err(format!("unknown part {x}").into()),
         }
     }
